@@ -224,7 +224,8 @@ impl SOA {
 
     /// Increments the serial number by one
     pub fn increment_serial(&mut self) {
-        self.serial += 1; // TODO: what to do on overflow?
+        // RFC 1982 serial number arithmetic: the successor of 2^32 - 1 is 0
+        self.serial = self.serial.wrapping_add(1);
     }
 }
 
